@@ -53,6 +53,14 @@ def genTT (seed n : Nat) (big : Bool) : IO Unit := do
     r := r14
     let tail := if many == 0 then (List.replicate 300 "n") ++ ["i:0000000000000007:E:1:1:g:-:0", "g:0000000000000007"] else []
     out.putStrLn s!"tt\t{mb}\t{" ".intercalate (ops.reverse ++ tail)}"
+    -- the fill indicator on tables that really fill up: thousands of consecutive keys (distinct slots), in steps
+    if i % 8 == 1 then
+      let (r15, mbF) := r.pick [1, 1, 2, 3]
+      let (r16, steps) := r15.below 5
+      let (r17, chunk) := r16.below 9000
+      r := r17
+      let fills := (List.range (steps + 2)).map fun j => s!"f:{hex16 (1000003 + j * (chunk + 3072))}:{chunk + 3072}"
+      out.putStrLn s!"tt\t{mbF}\t{" ".intercalate (fills ++ ["n", "r"] ++ fills.take 1)}"
 
 /-! ### C14 -/
 
